@@ -13,7 +13,7 @@ import suites
 from props.c01 import nm as atom_nm, em
 
 PROP = 'C08'
-LEAN_TARGETS = ['CGV.Props.C08']
+LEAN_TARGETS = ['CGV.Props.C08', 'CGV.Props.C08Path', 'CGV.Props.C08Frag']
 RULE = ('fragment sets the reader accepts — coarse fragments (named nodes, bond orders, rings) and atomistic fragments '
         'of fragmented molecules — with 0-3 descriptors per atom (4 kinds, labels, orders 0-3); written by '
         'write_cgsmiles_fragments (implementation and Lean model of write_graph + translated format_bonding, string '
@@ -45,6 +45,11 @@ def roundtrip(ctx, suite, block, all_atom, case):
         return
     ndesc = sum(len(d.get('bonding', []) or []) for g in frags.values() for _, d in g.nodes(data=True))
     ctx.count(suite, lib.stable_hash([block]), nontrivial=ndesc > 0, sample=block)
+    if not all_atom:
+        # the coarse fragment reader as a whole (scanner + graph reader + attaching) against `readFragCG`
+        for fragment in block[1:-1].split(','):
+            delim = fragment.find('=')
+            suites.run_readfrag_case(ctx, suite + '-readfrag', fragment[1:delim], fragment[delim + 1:], case)
     # model: every fragment graph through write_graph
     for name, g in frags.items():
         if len(g) == 0:
